@@ -36,6 +36,9 @@ def rel_inv(rng):
         # literal dots in directory and file names: the location of a class is its directory, not a
         # prefix of its dotted name
         dirs += [('e.f',), ('a', 'g.h')]
+    if rng.random() < 0.35:
+        # class directories whose name starts with an underscore (only node names treat those specially)
+        dirs += [('_s',), ('_s', 'sub'), ('a', '_t')]
     dotted = rng.random() < 0.3
     names = []
     refvals = {}
